@@ -113,7 +113,18 @@ pub fn run(op: &str, v: &Value) -> Value {
         nodes.push(json!({"desc": describe(g, id, 0), "name": n.name(), "export": n.export_name(), "args": args}));
     }
     let imports: Vec<String> = g.imports().map(|(n, _, _)| n.to_string()).collect();
-    let mut out = json!({"ok": true, "nodes": nodes, "implicit_and_explicit_imports": imports});
+    // every export of the composition (names from the structural dump, nodes through the public query)
+    let mut exports = Map::new();
+    let dump = g.verif_dump();
+    if let Some(i) = dump.rfind("exports[") {
+        for kv in dump[i + 8..dump.len() - 1].split(',').filter(|s| !s.is_empty()) {
+            if let Some((name, _)) = kv.rsplit_once('=') {
+                let d = g.get_export(name).map(|id| describe(g, id, 0));
+                exports.insert(name.to_string(), json!(d));
+            }
+        }
+    }
+    let mut out = json!({"ok": true, "nodes": nodes, "implicit_and_explicit_imports": imports, "exports": exports});
     if v["encode"].as_bool().unwrap_or(false) {
         match res.encode(EncodeOptions::default()) {
             Ok(b) => {
